@@ -232,6 +232,16 @@ def rule_score(ctx):
     ctx.ob('C07.score', f'{f.fq}:tail-time', ok,
            'the tail is counted from the later of the final logical time and the latest queued bundle: a bundle sent with latency lies '
            'after the last wake-up, and the marker must still be the last entry', f.node, f.module)
+    mains = [x for x in walk_local(f.node) if isinstance(x, ast.If) and norm(x.test) == '_libsc3.main.current_tt is _libsc3.main.main_tt']
+    both = False
+    if len(mains) == 1:
+        inside = any('peek(False)' in norm(x) for x in mains[0].body)
+        other = any('peek(False)' in norm(x) for x in mains[0].orelse) or any(
+            'peek(False)' in norm(x) for x in body if x is not mains[0] and not isinstance(x, ast.For))
+        both = other or not inside
+    ctx.ob('C07.score', f'{f.fq}:tail-time-in-routine', both,
+           'finish() called from inside a routine stamps the marker at the routine\'s logical time + tailtime; the maximum with the latest '
+           'queued bundle is taken on the main-thread branch only, so a bundle sent earlier with a latency follows the marker', f.node, f.module)
     d = repo.func('sc3.base._oscinterface:OscScore.duration')
     ctx.ob('C07.score', f'{d.fq}', 'return self._scoreq.peek(False)[0] * clk.SystemClock._OSC_TO_SECONDS' in full(d.node) or
            'return self._scoreq.peek(False)[0]' in full(d.node), 'duration is the latest queued time', d.node, d.module)
